@@ -107,9 +107,6 @@ theorem processDeps_inv {u : Universe} {mgt : List (PackageKey × Bytes)} {first
       have hJ1 := hstep ds d s s1 ⟨rest, himps⟩ hJ (processDep_ok h1)
       exact ih (ds ++ [d]) s1 s' (by simp [himps]) hJ1 h
 
-/-- The options `imports` is called with. -/
-def optsOf (first : Bool) : ImportsOpt := { test := first, opt := first, provided := first }
-
 /-- Induction principle for the breadth-first loop. `I first s` holds between iterations,
 `J first cur curId ds s` while the declarations of `cur` are processed (`ds` handled so far). -/
 theorem loop_inv {u : Universe} {mgt : List (PackageKey × Bytes)}
